@@ -5,17 +5,29 @@ for the helpers of `EPV.Scope.eval`, given the frame property of the evaluator o
 import EPV.Model.Scope
 namespace EPV.Scope
 
+theorem Quirks.heapSafe_iff (q : Quirks) : q.heapSafe = true ↔ q.operandCopied = true ∧ q.adjustCopied = true := by
+  simp [Quirks.heapSafe]
+
 /-- `ev` hands back the caller's dict (when calls copy) and the caller's objects (when operands are copied) -/
 def Frame (c : Cfg) (ev : Expr → Env → Heap → Res) : Prop :=
   ∀ e ρ h v ρ' h', ev e ρ h = .ok (v, ρ', h') →
-    (c.q.callCopies = true → ρ' = ρ) ∧ (c.q.operandCopied = true → h' = h)
+    (c.q.callCopies = true → ρ' = ρ) ∧ (c.q.heapSafe = true → h' = h)
 
 theorem subItems_heap (c : Cfg) (h : Heap) (x y : Item) (r : Item) (h' : Heap)
-    (hq : c.q.operandCopied = true) (he : subItems c h x y = some (r, h')) : h' = h := by
+    (hq : c.q.heapSafe = true) (he : subItems c h x y = some (r, h')) : h' = h := by
   unfold subItems at he
   split at he
   · cases he
-  · rw [hq] at he
+  · rw [((Quirks.heapSafe_iff _).1 hq).1] at he
+    simp at he
+    exact he.2.symm
+
+theorem adjustItem_heap (c : Cfg) (h : Heap) (x : Item) (t : Option Int) (r : Item) (h' : Heap)
+    (hq : c.q.heapSafe = true) (he : adjustItem c h x t = some (r, h')) : h' = h := by
+  unfold adjustItem at he
+  split at he
+  · cases he
+  · rw [((Quirks.heapSafe_iff _).1 hq).2] at he
     simp at he
     exact he.2.symm
 
@@ -24,7 +36,7 @@ variable {c : Cfg} {ev : Expr → Env → Heap → Res}
 theorem operands_frame (hf : Frame c ev) {a b : Expr} {ρ : Env} {h : Heap}
     {o : Option (Item × Item)} {ρ' : Env} {h' : Heap}
     (he : operands ev a b ρ h = .ok (o, ρ', h')) :
-    (c.q.callCopies = true → ρ' = ρ) ∧ (c.q.operandCopied = true → h' = h) := by
+    (c.q.callCopies = true → ρ' = ρ) ∧ (c.q.heapSafe = true → h' = h) := by
   unfold operands at he
   split at he
   · cases he
@@ -44,7 +56,7 @@ theorem operands_frame (hf : Frame c ev) {a b : Expr} {ρ : Env} {h : Heap}
         · cases he
     · cases he
 
-theorem forLoop_heap (hf : Frame c ev) (hq : c.q.operandCopied = true) (x : Name) (body : Expr) :
+theorem forLoop_heap (hf : Frame c ev) (hq : c.q.heapSafe = true) (x : Name) (body : Expr) :
     ∀ (items : List Item) (ρc : Env) (h : Heap) (v : Val) (ρ' : Env) (h' : Heap),
       forLoop ev x body items ρc h = .ok (v, ρ', h') → h' = h := by
   intro items
@@ -64,7 +76,7 @@ theorem forLoop_heap (hf : Frame c ev) (hq : c.q.operandCopied = true) (x : Name
         cases he
         exact this.trans fb
 
-theorem quantLoop_heap (hf : Frame c ev) (hq : c.q.operandCopied = true) (s : Bool) (x : Name) (body : Expr) :
+theorem quantLoop_heap (hf : Frame c ev) (hq : c.q.heapSafe = true) (s : Bool) (x : Name) (body : Expr) :
     ∀ (items : List Item) (ρc : Env) (h : Heap) (b : Bool) (ρ' : Env) (h' : Heap),
       quantLoop ev s x body items ρc h = .ok (b, ρ', h') → h' = h := by
   intro items
@@ -86,7 +98,7 @@ theorem quantLoop_heap (hf : Frame c ev) (hq : c.q.operandCopied = true) (s : Bo
 theorem evalArgs_frame (hf : Frame c ev) :
     ∀ (as : List Expr) (ρ : Env) (h : Heap) (vs : List Val) (ρ' : Env) (h' : Heap),
       evalArgs ev as ρ h = .ok (vs, ρ', h') →
-      (c.q.callCopies = true → ρ' = ρ) ∧ (c.q.operandCopied = true → h' = h) := by
+      (c.q.callCopies = true → ρ' = ρ) ∧ (c.q.heapSafe = true → h' = h) := by
   intro as
   induction as with
   | nil => intro ρ h vs ρ' h' he; simp [evalArgs] at he; exact ⟨fun _ => he.2.1.symm, fun _ => he.2.2.symm⟩
@@ -107,7 +119,7 @@ theorem evalArgs_frame (hf : Frame c ev) :
 theorem applyFn_frame (hf : Frame c ev) {ps : List Name} {body : Expr} {cap : Env} {args : List Val}
     {ρ : Env} {h : Heap} {v : Val} {ρ' : Env} {h' : Heap}
     (he : applyFn ev c ps body cap args ρ h = .ok (v, ρ', h')) :
-    (c.q.callCopies = true → ρ' = ρ) ∧ (c.q.operandCopied = true → h' = h) := by
+    (c.q.callCopies = true → ρ' = ρ) ∧ (c.q.heapSafe = true → h' = h) := by
   unfold applyFn at he
   split at he
   · cases he
@@ -254,5 +266,42 @@ theorem eval_frame (c : Cfg) : ∀ n, Frame c (eval c n) := by
           exact ⟨fun q => ((fa.1 q).trans (fr.1 q)).trans (ff.1 q),
                  fun q => ((fa.2 q).trans (fr.2 q)).trans (ff.2 q)⟩
       · cases he
+    · cases he; exact ⟨fun _ => rfl, fun _ => rfl⟩
+    · -- adjust1
+      split at he
+      · cases he
+      · rename_i ρ1 h1 ha
+        have fa := ih _ _ _ _ _ _ ha
+        cases he; exact fa
+      · rename_i x ρ1 h1 ha
+        have fa := ih _ _ _ _ _ _ ha
+        split at he
+        · rename_i r h2 hs
+          cases he
+          exact ⟨fa.1, fun q => (adjustItem_heap c _ _ _ _ _ q hs).trans (fa.2 q)⟩
+        · cases he
+      · cases he
+    · -- adjust2
+      split at he
+      · cases he
+      · rename_i v ρ1 h1 ha
+        have fa := ih _ _ _ _ _ _ ha
+        split at he
+        · cases he
+        · split at he
+          · cases he
+          · rename_i vz ρ2 h2 hz
+            have fz := ih _ _ _ _ _ _ hz
+            split at he
+            · cases he
+            · split at he
+              · split at he
+                · rename_i r h3 hs
+                  cases he
+                  exact ⟨fun q => (fz.1 q).trans (fa.1 q),
+                         fun q => ((adjustItem_heap c _ _ _ _ _ q hs).trans (fz.2 q)).trans (fa.2 q)⟩
+                · cases he
+              · cases he
+                exact ⟨fun q => (fz.1 q).trans (fa.1 q), fun q => (fz.2 q).trans (fa.2 q)⟩
 
 end EPV.Scope
